@@ -188,7 +188,8 @@ func SignHashed(rand io.Reader, priv, e []byte) (r, s []byte, err error) {
 			return
 		}
 
-		if utils.ConstantTimeCmp(K[:], nBytes[:], 32) >= 0 {
+		// k must lie in [1, n-1]
+		if utils.ConstantTimeCmp(K[:], nBytes[:], 32) >= 0 || utils.ConstantTimeCmp(K[:], zero32[:], 32) == 0 {
 			continue
 		}
 
